@@ -167,9 +167,11 @@ impl<'a> Case<'a> {
         let done: Vec<u32> = self.e.newly_complete.drain(..).collect();
         for id in done {
             self.op(&format!("fdtabs inst {}", id));
-            let r = self.op(&format!("fdtabs rx {} {}", id, self.now));
-            if r.starts_with("R ") {
-                self.ctx.count("instances-read-by-both-readers");
+            for v in ["a", "b", "c"] {
+                let r = self.op(&format!("fdtabs rx {} {} {}", id, self.now, v));
+                if r.starts_with("R ") {
+                    self.ctx.count(&format!("instances-read-by-both-readers-{}", v));
+                }
             }
         }
         let idle = hints.len() >= 2 && hints[0] == "p" && hints[hints.len() - 1] == "p" && !obs.contains("pop") && hints.iter().all(|h| h == "p");
@@ -485,6 +487,33 @@ fn admission_case(ctx: &mut Ctx, e: &mut FdtEngine, g: &mut G, full: bool, grow:
     c.finish();
 }
 
+/// a pause between `publish()` and the first `read()`, then regular polling until after the expiry: the age of an instance
+/// counts from `publish()`, so the successor is due `duration - 5 s` after it however late the instance went on air
+fn late_first_read_case(ctx: &mut Ctx, e: &mut FdtEngine, g: &mut G, dur: u64, delay: u64, idx: u64) {
+    e.reset();
+    ctx.case(&format!("late-first-read-{}us-delay{}us-{}", dur, delay, idx));
+    ctx.count("late-first-read-cases");
+    let oti = OtiSpec { enc: 0, inst: 0, b: 64, e: 1400, p: 0, scheme: None };
+    let mut c = Case { ctx, e, now: g.rng.range(1_600_000_000, 1_900_000_000) * 1_000_000, tois: Vec::new(), reads: 0 };
+    c.op(&cfg_line(true, g.rng.below(1 << 20) as u32, dur, &oti, &None, 0));
+    c.op(&add_line("file:///late", "text/plain", 10, 1, 0, None, &None, &None, "~", &None, 1, "d1000000", 0));
+    c.publish();
+    let t0 = c.now;
+    c.now += delay;
+    // every second until shortly after the expiry; for long durations jump over the quiet middle part
+    let end = t0 + dur + 3_000_000;
+    while c.now < end && !c.e.dead {
+        c.drain(50);
+        if dur > 120_000_000 && c.now > t0 + delay + 10_000_000 && c.now + 30_000_000 < t0 + dur {
+            c.now = t0 + dur - 20_000_000;
+        } else {
+            c.now += 1_000_000;
+        }
+    }
+    c.ctx.nontrivial(&format!("late {} {}", dur, delay));
+    c.finish();
+}
+
 /// instance ids across the 2^20 wrap
 fn wrap_case(ctx: &mut Ctx, e: &mut FdtEngine, g: &mut G, n: u64) {
     e.reset();
@@ -659,6 +688,13 @@ pub fn run(ctx: &mut Ctx, e: &mut FdtEngine) {
                 supersede_case(ctx, e, &mut g, *d, step, frac, k);
                 k += 1;
             }
+        }
+    }
+    let mut k = 0;
+    for dur in [31_000_000u64, 60_000_000, 3_600_000_000] {
+        for delay in [2_000_000u64, 6_000_000, 20_000_000] {
+            late_first_read_case(ctx, e, &mut g, dur, delay, k);
+            k += 1;
         }
     }
     for (i, (full, grow)) in [(true, false), (false, false), (true, true), (false, true)].iter().enumerate() {
